@@ -205,10 +205,11 @@ def jobs_for(pid, tier, seed):
                       get_variants=['try_get'], add_variants=['try_add'], max_adds=0, ctl=('close',), cancel=False))
     elif pid == 'C14':
         C = ['deadpool_runtime', 'deadpool_sync']
-        J.append({'name': 'one wrapper: up to 3 interacts (ok / panic), cancel, drop at any time, any blocking-pool order', 'kind': 'sync_bse',
-                  'cfg': {'max_interacts': 3, 'depth': 14 if q else 18}, 'crates': C})
-        J.append({'name': 'closures that take time: up to 2 interacts, cancel / drop / further interacts while a closure is running', 'kind': 'sync_bse',
-                  'cfg': {'max_interacts': 2, 'depth': 12 if q else 16, 'split': True}, 'crates': C})
+        ni = 3 if q else 4
+        J.append({'name': f'one wrapper: up to {ni} interacts (ok / panic), cancel, drop at any time, any blocking-pool order', 'kind': 'sync_bse',
+                  'cfg': {'max_interacts': ni, 'depth': 14 if q else 24}, 'crates': C})
+        J.append({'name': f'closures that take time: up to {ni - 1} interacts, cancel / drop / further interacts while a closure is running', 'kind': 'sync_bse',
+                  'cfg': {'max_interacts': ni - 1, 'depth': 12 if q else 22, 'split': True}, 'crates': C})
         J.append({'name': 'creation closure fails', 'kind': 'sync_bse', 'cfg': {'create': 'err', 'max_interacts': 0, 'depth': 4}, 'crates': C})
     elif pid == 'C15':
         for mgr, crate in (('sqlite', 'deadpool_sqlite'), ('r2d2', 'deadpool_r2d2'), ('diesel', 'deadpool_diesel')):
@@ -217,7 +218,10 @@ def jobs_for(pid, tier, seed):
                         'r2d2': [{}, {'has_broken': True}, {'is_valid': 'err'}, {'has_broken': True, 'is_valid': 'err'}],
                         'diesel': [{}, {'broken_tx': True}, {'execute': 'err'}, {'custom': 'err'}]}[mgr]
             methods = ['Fast', 'Verified', 'CustomQuery', 'CustomFunction'] if mgr == 'diesel' else ['-']
-            for pre in ((), ('interact_ok',), ('interact_panic',), ('cancelled_panic_queued',), ('cancelled_ok_queued',), ('interact_ok', 'cancelled_panic_queued')):
+            pres = [(), ('interact_ok',), ('interact_panic',), ('cancelled_panic_queued',), ('cancelled_ok_queued',), ('interact_ok', 'cancelled_panic_queued')]
+            if not q: pres += [('interact_ok', 'interact_ok'), ('interact_ok', 'interact_panic'), ('interact_panic', 'interact_ok'), ('cancelled_ok_queued', 'cancelled_panic_queued'),
+                               ('cancelled_ok_queued', 'interact_ok'), ('interact_ok', 'cancelled_ok_queued')]
+            for pre in pres:
                 for b in backends:
                     for meth in methods:
                         J.append({'name': f'{mgr} recycle: history {list(pre) or "fresh"}, backend {b or "healthy"}' + (f', method {meth}' if mgr == 'diesel' else ''),
@@ -292,6 +296,9 @@ def jobs_for(pid, tier, seed):
     if pid in ('C01', 'C02'):
         J.append(mfam('fine interleaving: get racing return / take (max_size 1, 2 threads)', [pid], 24 if q else 32, tasks=2, max_size_concrete=1, prefix=(('get', 'T1', 0),), max_gets=2,
                       thread_mode=True, fine=True, cancel=False, lifo=False, env={'create': ('ok',), 'recycle': ('ok',)}))
+    if pid == 'C02':
+        J.append(mfam('fine interleaving: return / take racing a shrink (2 objects out): no capacity is lost', ['C02'], 30 if q else 40, tasks=2, max_size_concrete=2, prefix=(('get', 'T1', 0), ('get', 'T2', 0)), max_gets=1,
+                      ctl=('resize',), resize_targets=(1,), max_ctl=1, thread_mode=True, fine=True, cancel=False, lifo=False, env={'create': ('ok',), 'recycle': ('ok',)}))
     if pid == 'C07':
         J.append(mfam('a waiter holds an assigned permit across a shrink and a grow (max_size 1)', ['C07'], 6 if q else 8, tasks=2, max_size_concrete=1, prefix=(('get', 'T1', 0), ('get', 'T2', 0)),
                       env={'create': ('ok',), 'recycle': ('ok',)}, ctl=('resize',), resize_targets=(0, 1), max_ctl=2, cancel=False, take=False, lifo=False))
